@@ -143,7 +143,9 @@ Definition on_eqb (a b : option N) : bool :=
 
 (** * Oracles on observed traces (no pipeline model involved) *)
 (** What the harness observed, in global real-time order. *)
-Inductive pobs := PoNotLeader | PoRegistered (id : N) | PoStarted | PoOther.
+(** [PoDropped]: raft refused the proposal / read-index request (e.g. during a leader transfer) and the call
+    returned an error at once. *)
+Inductive pobs := PoNotLeader | PoRegistered (id : N) | PoStarted | PoDropped | PoOther.
 Inductive robs := RoOk (uid : N) (v : option N) | RoNotLeader | RoErr.
 Inductive oev :=
 | OStart (s : N)                                                (* store s restarted from its directory *)
